@@ -96,6 +96,10 @@ func (s *streamWS) RecvMsg(m interface{}) error {
 				closed.Code == ws.StatusGoingAway || closed.Code == ws.StatusNoStatusRcvd) {
 				return io.EOF // the client closed the stream
 			}
+			if err == io.EOF {
+				// The connection ended without a close frame, possibly inside a frame.
+				return io.ErrUnexpectedEOF
+			}
 			return err
 		}
 
